@@ -30,6 +30,9 @@ Suppressions:
         global state or complex return types
 """
 
+from pathlib import Path
+
+from src.core.linter_utils import relative_to_project
 from src.core.types import Severity, Violation
 
 from . import context_filter
@@ -42,11 +45,17 @@ from .storage import StoredComparison, StoredPattern, StringlyTypedStorage
 # --- Pure helper functions for filtering ---
 
 
-def _filter_by_ignore(violations: list[Violation], ignore: list[str]) -> list[Violation]:
-    """Filter violations by ignore patterns."""
+def _filter_by_ignore(
+    violations: list[Violation], ignore: list[str], project_root: Path | None = None
+) -> list[Violation]:
+    """Filter violations by ignore patterns (matched against the path inside the project)."""
     if not ignore:
         return violations
-    return [v for v in violations if not is_ignored(v.file_path, ignore)]
+    return [
+        v
+        for v in violations
+        if not is_ignored(relative_to_project(v.file_path, project_root), ignore)
+    ]
 
 
 def _is_allowed_value_set(values: set[str], config: StringlyTypedConfig) -> bool:
@@ -347,6 +356,7 @@ class ViolationGenerator:
         storage: StringlyTypedStorage,
         rule_id: str,
         config: StringlyTypedConfig,
+        project_root: Path | None = None,
     ) -> list[Violation]:
         """Generate violations from storage.
 
@@ -354,6 +364,7 @@ class ViolationGenerator:
             storage: Pattern storage instance
             rule_id: Rule identifier for violations
             config: Stringly-typed configuration with thresholds
+            project_root: Project root the ignore patterns are relative to (None: paths as given)
 
         Returns:
             List of violations for patterns appearing in multiple files
@@ -367,7 +378,7 @@ class ViolationGenerator:
         violations.extend(self._generate_comparison_violations(storage, config, covered_vars))
 
         # Apply path-based ignore patterns from config
-        violations = _filter_by_ignore(violations, config.ignore)
+        violations = _filter_by_ignore(violations, config.ignore, project_root)
 
         # Apply inline ignore directives via IgnoreChecker (re-reading files: they may have
         # changed since an earlier run of the same linter object)
